@@ -95,7 +95,8 @@ Theorem C14_UKFPrediction_generic_safe l comps q : noise l = 0 ->
   check_shapes (case_ukfp false l comps q l) = None.
 Proof. intro H. exact (check_none_of_safe _ (case_ukfp_generic_safe l comps q H)). Qed.
 
-(* ---- UKF correction (generic and additive): linear / Euler states and measurements, the evaluation
+(* ---- UKF correction (generic and additive): linear / Euler states, EVERY measurement layout
+        (quaternion measurements included since e82207d), the evaluation
         succeeding or failing, followed by getLikelihood(); [again]: then a second correction whose
         evaluation fails and getLikelihood() once more *)
 Theorem C14_UKFCorrection_safe additive lp comps r valid lm again :
@@ -103,10 +104,13 @@ Theorem C14_UKFCorrection_safe additive lp comps r valid lm again :
   check_shapes (case_ukfc additive lp comps r valid lm (lcov lm) lp comps again) = None.
 Proof. intro H. exact (check_none_of_safe _ (case_ukfc_safe additive lp comps r valid lm again H)). Qed.
 
-Theorem C14_UKFCorrection_quaternion_measurement_refuted :
-  check_shapes (case_ukfc false (Lay 3 0 false 0) 1 2 true (Lay 0 1 true 0) 3 (Lay 3 0 false 0) 1 false)
-  = Some (e_ukfc, "Pxy.middleCols(meas_size*i,meas_size)"%string).
-Proof. exact ukfc_quaternion_measurement_refuted. Qed.
+(* in particular quaternion measurements (the old program and its witness are in C14_Regress.v) *)
+Theorem C14_UKFCorrection_quaternion_measurement_safe additive lp comps r valid mL mC again :
+  quat lp = false -> noise lp = 0 -> (additive = true -> r = lcov (Lay mL mC true 0)) ->
+  check_shapes (case_ukfc additive lp comps r valid (Lay mL mC true 0) (lcov (Lay mL mC true 0)) lp comps again) = None.
+Proof.
+  intros H H0 H1. apply check_none_of_safe, case_ukfc_safe. repeat split; try assumption; reflexivity.
+Qed.
 
 Theorem C14_UKFCorrection_quaternion_state_refuted :
   check_shapes (case_ukfc true (Lay 2 1 true 0) 1 2 true (Lay 2 0 false 0) 2 (Lay 2 1 true 0) 1 false)
@@ -123,17 +127,17 @@ Theorem C14_SUKFCorrection_quaternion_state_refuted :
   = Some (e_sukf, "propagated.middleCols(size_sigmas*i,size_sigmas)"%string).
 Proof. exact sukf_quaternion_state_refuted. Qed.
 
-(* ---- Resampling (every layout) and ResamplingWithPrior (non-quaternion sets, prior share < 1) *)
+(* ---- Resampling and ResamplingWithPrior (prior share < 1): every layout, quaternion sets included (d09c5ac) *)
 Theorem C14_Resampling_safe l n : 0 < n -> check_shapes (case_resample l n l n n) = None.
 Proof. intro H. exact (check_none_of_safe _ (case_resample_safe l n H)). Qed.
 
-Theorem C14_ResamplingWithPrior_safe l n k : quat l = false -> noise l = 0 -> k < n ->
+Theorem C14_ResamplingWithPrior_safe l n k : noise l = 0 -> k < n ->
   check_shapes (case_resprior l n k n) = None.
-Proof. intros H H0 H1. exact (check_none_of_safe _ (case_resprior_safe l n k H H0 H1)). Qed.
+Proof. intros H H0. exact (check_none_of_safe _ (case_resprior_safe l n k H H0)). Qed.
 
-Theorem C14_ResamplingWithPrior_quaternion_refuted :
-  check_shapes (case_resprior (Lay 2 1 true 0) 4 2 4) = Some (e_resp, "tmp.state(j)="%string).
-Proof. exact resprior_quaternion_refuted. Qed.
+Theorem C14_ResamplingWithPrior_quaternion_safe L C n k : k < n ->
+  check_shapes (case_resprior (Lay L C true 0) n k n) = None.
+Proof. intro H. exact (check_none_of_safe _ (case_resprior_safe (Lay L C true 0) n k eq_refl H)). Qed.
 
 (* ---- density utilities *)
 Theorem C14_gaussian_density_safe r c : check_shapes (case_density r c r r r) = None.
@@ -192,13 +196,13 @@ Print Assumptions C14_KFCorrection_safe.
 Print Assumptions C14_UKFPrediction_additive_safe.
 Print Assumptions C14_UKFPrediction_generic_safe.
 Print Assumptions C14_UKFCorrection_safe.
-Print Assumptions C14_UKFCorrection_quaternion_measurement_refuted.
+Print Assumptions C14_UKFCorrection_quaternion_measurement_safe.
 Print Assumptions C14_UKFCorrection_quaternion_state_refuted.
 Print Assumptions C14_SUKFCorrection_safe.
 Print Assumptions C14_SUKFCorrection_quaternion_state_refuted.
 Print Assumptions C14_Resampling_safe.
 Print Assumptions C14_ResamplingWithPrior_safe.
-Print Assumptions C14_ResamplingWithPrior_quaternion_refuted.
+Print Assumptions C14_ResamplingWithPrior_quaternion_safe.
 Print Assumptions C14_gaussian_density_safe.
 Print Assumptions C14_gaussian_density_UVR_safe.
 Print Assumptions C14_EstimatesExtraction_safe.
